@@ -46,10 +46,14 @@ type FuncContract struct {
 	Captured []*Clause // behaviour contracts: ASSUMED facts about captured variables (not checked at call sites)
 	Iterates *IterSpec            // iterator functions: the callback protocol
 	IterInv  map[string][]*Clause // call-site invariants for expanded iterator calls, by callee suffix
+	AfterAssume []*Clause // ASSUMED facts right after a call of a named library callee (explicit, reported assumptions)
 	AtCalls  []*Clause // assertions at every call of a named callee (Tags[..], Callee in Kind)
 	Checks   []*Clause // like ensures, but verified only (not exported to callers); may mention locals
 	Assigns  []*Clause
 	HasAssigns bool
+	BeforeAssume []*Clause
+	SplitExits bool
+	AssignsAny bool // "assigns anything": no heap frame is claimed (effects and ghost logs still are)
 	Effects    []string
 	HasEffects bool
 	Nilable    map[string]bool
@@ -110,6 +114,7 @@ type IterSpec struct {
 	Count ast.Expr
 	Elem  ast.Expr
 	When  ast.Expr // optional filter: cb is called only for indices satisfying it
+	NoStop bool    // the callback's result does not end the iteration
 	Text  string
 }
 
@@ -140,7 +145,7 @@ type GlobalFact struct {
 
 var clauseKeywords = map[string]bool{"func": true, "spec": true, "axiom": true, "requires": true, "ensures": true,
 	"assigns": true, "effects": true, "nilable": true, "loop": true, "pure": true, "trusted": true, "iface": true,
-	"import": true, "inline": true, "global": true, "props": true, "split": true, "reveal": true, "use": true, "typeinv": true, "behaves": true, "behaviour": true, "check": true, "captured": true, "atcall": true, "iterates": true, "iter": true}
+	"import": true, "inline": true, "global": true, "props": true, "split": true, "reveal": true, "use": true, "typeinv": true, "behaves": true, "behaviour": true, "check": true, "captured": true, "atcall": true, "iterates": true, "iter": true, "assume-after": true, "assume-before": true}
 
 func firstWord(s string) string {
 	s = strings.TrimSpace(s)
@@ -234,6 +239,11 @@ func (P *Program) parseClauses(lines []cline, sc *Scope, pkgPath string, lib boo
 				return errf(l, "%v", err)
 			}
 			elemText := strings.TrimSpace(rest[j+6:])
+			nostop := false
+			if strings.HasSuffix(elemText, " nostop") {
+				nostop = true
+				elemText = strings.TrimSpace(strings.TrimSuffix(elemText, " nostop"))
+			}
 			var we ast.Expr
 			if k := strings.Index(elemText, " when "); k >= 0 {
 				we, err = parseSpecExpr(strings.TrimSpace(elemText[k+6:]))
@@ -246,7 +256,7 @@ func (P *Program) parseClauses(lines []cline, sc *Scope, pkgPath string, lib boo
 			if err != nil {
 				return errf(l, "%v", err)
 			}
-			cur.Iterates = &IterSpec{Param: strings.TrimSpace(rest[:i]), Count: ce, Elem: ee, When: we, Text: rest}
+			cur.Iterates = &IterSpec{Param: strings.TrimSpace(rest[:i]), Count: ce, Elem: ee, When: we, NoStop: nostop, Text: rest}
 		case "iter":
 			// iter <callee suffix> invariant [{tags}] expr
 			fs := strings.SplitN(rest, " ", 3)
@@ -269,6 +279,30 @@ func (P *Program) parseClauses(lines []cline, sc *Scope, pkgPath string, lib boo
 				cur.IterInv = map[string][]*Clause{}
 			}
 			cur.IterInv[fs[0]] = append(cur.IterInv[fs[0]], &Clause{Kind: "iter", Text: text, Expr: e, Tags: tags, File: l.file, Line: l.line})
+		case "assume-before":
+			// assume-before <callee suffix>: expr — an explicit, reported ASSUMPTION made just before a call
+			i := strings.Index(rest, ":")
+			if i < 0 || cur == nil {
+				return errf(l, "assume-before <callee>: expr expected")
+			}
+			text := strings.TrimSpace(rest[i+1:])
+			e, err := parseSpecExpr(text)
+			if err != nil {
+				return errf(l, "%v in %q", err, text)
+			}
+			cur.BeforeAssume = append(cur.BeforeAssume, &Clause{Kind: strings.TrimSpace(rest[:i]), Text: text, Expr: e, File: l.file, Line: l.line})
+		case "assume-after":
+			// assume-after <callee suffix>: expr   — an explicit, reported ASSUMPTION about library behaviour
+			i := strings.Index(rest, ":")
+			if i < 0 || cur == nil {
+				return errf(l, "assume-after <callee>: expr expected")
+			}
+			text := strings.TrimSpace(rest[i+1:])
+			e, err := parseSpecExpr(text)
+			if err != nil {
+				return errf(l, "%v in %q", err, text)
+			}
+			cur.AfterAssume = append(cur.AfterAssume, &Clause{Kind: strings.TrimSpace(rest[:i]), Text: text, Expr: e, File: l.file, Line: l.line})
 		case "atcall":
 			// atcall <callee suffix>: [{tags}] expr   — asserted before every call of that callee, over locals
 			i := strings.Index(rest, ":")
@@ -358,6 +392,10 @@ func (P *Program) parseClauses(lines []cline, sc *Scope, pkgPath string, lib boo
 			if rest == "nothing" {
 				break
 			}
+			if rest == "anything" {
+				cur.AssignsAny = true
+				break
+			}
 			for _, part := range splitTopLevel(rest, ',') {
 				part = strings.TrimSpace(part)
 				e, err := parseSpecExpr(part)
@@ -385,6 +423,11 @@ func (P *Program) parseClauses(lines []cline, sc *Scope, pkgPath string, lib boo
 			cur.Pure = true
 			cur.PureNames = splitNames(rest)
 		case "split":
+			if rest == "exits" {
+				// prove every postcondition once per return statement instead of once over the merged exit state
+				cur.SplitExits = true
+				break
+			}
 			for _, part := range splitTopLevel(rest, ',') {
 				part = strings.TrimSpace(part)
 				e, err := parseSpecExpr(part)
